@@ -141,14 +141,16 @@ func main() {
 		}
 		os.Exit(1)
 	}
+	loadSecs := time.Since(t0).Seconds()
 	exit := 0
 	for _, id := range ids {
 		ts := time.Now()
 		c := runProperty(w, id, *tier)
-		wall := time.Since(ts).Seconds()
-		if len(ids) == 1 {
-			wall = time.Since(t0).Seconds()
+		if *tier == "thorough" && overlay == nil {
+			c.Sensitivity = runBattery(id, *repo, *verif)
 		}
+		// loading and SSA construction are shared by the properties of one run and counted for each
+		wall := loadSecs + time.Since(ts).Seconds()
 		if *list {
 			for _, o := range c.Obs {
 				fmt.Printf("  %-9s %-8s %s @ %s  %s\n", o.Verdict, o.Rule, o.Key, o.Pos, o.Detail)
